@@ -208,15 +208,43 @@ def execute_part(rec):
         kw, D0 = split_object(rec, n)
         return A, b, x, kw, D0
 
-    def base(a, A, b, x, D0):
+    def index_arrays(kw):
+        # the index arrays exactly as the caller hands them over (plain arrays only; views / dicts are library objects)
+        return [v for k, v in sorted(kw.items()) if k in ('D', 'I') and isinstance(v, np.ndarray)]
+
+    def base(a, A, b, x, D0, kw=None):
         ev = {'a': a, 'n': n, 'A': mat(A), 'hasb': hasb, 'hasx': hasx, 'err': '', 'exact': 1,
               'b': ([] if b is None else (vec(b) if hasb == 1 else mat(b))),
               'x': ([] if x is None else vec(x)), 'D': one_based(D0), 'ov': 0, 'diag': 1,
               'ck': cks(A, b, x), 'ck2': [], 'ck3': []}
+        ev['ck4'] = ev['ck']
+        ev['ckix'] = cks(*index_arrays(kw)) if kw else []
+        ev['ckix2'] = ev['ckix']
         return ev
 
-    def after(ev, A, b, x):
+    def after(ev, A, b, x, kw=None):
         ev['ck2'] = cks(A, b, x)
+        if kw:
+            ev['ckix2'] = cks(*index_arrays(kw))
+
+    def independent(ev, A, b, x, *results):
+        """Writes into the RESULTS in place; the operands must not notice (a result that aliases an operand would)."""
+        try:
+            for r in results:
+                if r is None:
+                    continue
+                if isinstance(r, np.ndarray):
+                    if r.flags.writeable and r.size:
+                        r += 1
+                elif hasattr(r, 'data') and isinstance(r.data, np.ndarray) and r.data.size:
+                    r.data += 1
+                    for nm in ('indices', 'indptr'):
+                        a_ = getattr(r, nm, None)
+                        if isinstance(a_, np.ndarray) and a_.size and a_.flags.writeable:
+                            a_[:] = a_[::-1].copy()
+        except Exception:
+            pass
+        ev['ck4'] = cks(A, b, x)
 
     def setexact(ev, *vals):
         if any(v is None for v in vals):
@@ -225,7 +253,7 @@ def execute_part(rec):
     # ---- enforce
     for ov in ((0, 1) if rec.get('both_ov', True) else (0,)):
         A, b, x, kw, D0 = fresh()
-        ev = base('Enforce', A, b, x, D0)
+        ev = base('Enforce', A, b, x, D0, kw)
         ev['ov'] = ov
         ev['diag'] = rec.get('diag', 1)
         args = dict(kw, diag=float(ev['diag']), overwrite=bool(ov))
@@ -244,13 +272,15 @@ def execute_part(rec):
             setexact(ev, ev['Ao'], ev['bo'])
             if ev['exact'] == 0:
                 ev['Ao'], ev['bo'] = EMPTY_MAT, []
-        after(ev, A, b, x)
+        after(ev, A, b, x, kw)
+        if not err and not ov:
+            independent(ev, A, b, x, *(res if isinstance(res, tuple) else (res,)))
         events.append(ev)
 
     # ---- condense (+ pipeline with a stub solver)
     for expand in (1, 0):
         A, b, x, kw, D0 = fresh()
-        ev = base('Condense', A, b, x, D0)
+        ev = base('Condense', A, b, x, D0, kw)
         # the kept index sequence as the caller knows it: the given I, else the increasing complement
         I0 = kw['I'] if ('I' in kw and isinstance(kw['I'], np.ndarray)) else np.setdiff1d(np.arange(n), D0)
         ev.update(expand=expand, piped=0, AII=EMPTY_MAT, bI=[], xr=[], Ir=[], z=[], y=[], I0=one_based(I0))
@@ -263,6 +293,7 @@ def execute_part(rec):
             if not isinstance(res, tuple):
                 res = (res,)
             res = list(res)
+            results_ = list(res)
             ev['AII'] = mat(res.pop(0))
             if hasb or hasx:
                 bI = res.pop(0)
@@ -296,12 +327,15 @@ def execute_part(rec):
             setexact(ev, ev['AII'], ev['bI'], ev['xr'], ev['y'])
             if ev['exact'] == 0:
                 ev.update(AII=EMPTY_MAT, bI=[], xr=[], y=[])
-        after(ev, A, b, x)
+        after(ev, A, b, x, kw)
+        if not err:
+            # only the reduced system is new; x and I are handed through by design (they are arguments of solve())
+            independent(ev, A, b, x, *results_[:2 if (hasb or hasx) else 1])
         events.append(ev)
 
     # ---- penalize with explicit power-of-two epsilon
     A, b, x, kw, D0 = fresh()
-    ev = base('Penalize', A, b, x, D0)
+    ev = base('Penalize', A, b, x, D0, kw)
     ie = 2 ** rec.get('ie_pow', 10)
     ev.update(ie=ie, Ao=EMPTY_MAT, bo=[])
     args = dict(kw, epsilon=1.0 / ie)
@@ -318,7 +352,9 @@ def execute_part(rec):
         setexact(ev, ev['Ao'], ev['bo'])
         if ev['exact'] == 0:
             ev['Ao'], ev['bo'] = EMPTY_MAT, []
-    after(ev, A, b, x)
+    after(ev, A, b, x, kw)
+    if not err:
+        independent(ev, A, b, x, *(res if isinstance(res, tuple) else (res,)))
     events.append(ev)
 
     # ---- eigen expansion with a stub eigen-solver
